@@ -448,10 +448,14 @@ impl<'a> Packet<'a> {
                     return Err(ControlResponseTokenMissing);
                 }
                 let (token, rest) = payload.split_at(4);
+                let token = Token([token[0], token[1], token[2], token[3]]);
+                if token == TOKEN_NONE {
+                    return Err(ControlResponseTokenMissing);
+                }
                 if warn_more && !rest.is_empty() {
                     warn.warn(Warning::ControlExcessData);
                 }
-                Ok(Token([token[0], token[1], token[2], token[3]]))
+                Ok(token)
             };
             let control = match control {
                 CTRLMSG_KEEPALIVE => {
